@@ -629,7 +629,7 @@ func (o *Char) UnmarshalBinary(data []byte) error {
 func (o Float) MarshalBinary() ([]byte, error) {
 	buf := make([]byte, 2+binary.MaxVarintLen64)
 	buf[0] = binFloatV1
-	if o == 0 {
+	if o == 0 && !math.Signbit(float64(o)) {
 		buf[1] = 0
 		return buf[:2], nil
 	}
